@@ -14,10 +14,11 @@ use turmoil_net::shim::tokio::net::{TcpListener, TcpStream};
 use turmoil_net::{Packet, Transport, Verdict};
 use vcore::Rng;
 
+use crate::diag::Diag;
 use crate::exec::{RoundClock, Spawner};
 use crate::prog::{reader, writer, Hist, Shared, SERVER_PORT};
 use crate::scn::*;
-use crate::wire::{kernel_config, Wire};
+use crate::wire::{kernel_config, Mon, Outcome, Stop, Wire};
 
 #[derive(Clone, Debug, PartialEq)]
 pub struct E2e {
@@ -93,6 +94,37 @@ pub struct E2eOut {
     pub server_done: bool,
     pub client_done: bool,
     pub horizon_ms: u64,
+    pub diag: Diag,
+}
+
+/// What the counting rule keeps: statistics plus the wire diagnosis, fed in
+/// the order the fixture's scheduler delivers (due packets first, in
+/// (deadline, evaluation order), then the packets evaluated in this tick).
+#[derive(Default)]
+struct RuleState {
+    stats: RuleStats,
+    diag: Diag,
+    pending: Vec<(u64, u64, Dir, turmoil_net::TcpSegment)>,
+    seq: u64,
+}
+
+impl RuleState {
+    fn flush(&mut self, now_ms: u64) {
+        let mut due: Vec<(u64, u64, Dir, turmoil_net::TcpSegment)> = vec![];
+        let mut keep = vec![];
+        for e in self.pending.drain(..) {
+            if e.0 <= now_ms {
+                due.push(e);
+            } else {
+                keep.push(e);
+            }
+        }
+        self.pending = keep;
+        due.sort_by_key(|e| (e.0, e.1));
+        for (_, _, dir, seg) in due {
+            self.diag.deliver(dir, &seg);
+        }
+    }
 }
 
 fn kind_of(p: &Packet) -> &'static str {
@@ -161,7 +193,7 @@ async fn client(sh: Rc<Shared>, server: SocketAddr, done: Rc<Cell<bool>>) {
 
 pub fn run(d: &E2e) -> E2eOut {
     let sh = shared(d);
-    let stats = Rc::new(RefCell::new(RuleStats::default()));
+    let state = Rc::new(RefCell::new(RuleState::default()));
     let sdone = Rc::new(Cell::new(false));
     let cdone = Rc::new(Cell::new(false));
     let horizon_ms = Wire::horizon(&d.as_scn(), d.d_ms) + 50;
@@ -196,15 +228,29 @@ pub fn run(d: &E2e) -> E2eOut {
         let saddr = SocketAddr::new(ips[1], SERVER_PORT);
         let (sh_s, sd_s) = (sh.clone(), sdone.clone());
         let (sh_c, sd_c, cd_c) = (sh.clone(), sdone.clone(), cdone.clone());
-        let st = stats.clone();
+        let st = state.clone();
         let dd = d.clone();
+        let client_ip = ips[0];
         timed_out = ClientServer::with_config(kernel_config(&d.cfg))
             .server(ips[1], async move { serve(sh_s, bind, sd_s).await })
             .run(ips[0], async move {
                 let mut rng = Rng::new(dd.seed);
+                let t0 = tokio::time::Instant::now();
                 turmoil_net::rule(move |p: &Packet| {
                     let k = kind_of(p);
-                    let mut s = st.borrow_mut();
+                    let mut guard = st.borrow_mut();
+                    let rs = &mut *guard;
+                    let now_ms = t0.elapsed().as_millis() as u64;
+                    rs.flush(now_ms);
+                    let dir = if p.src == client_ip { Dir::C2S } else { Dir::S2C };
+                    let seg = match &p.payload {
+                        Transport::Tcp(s) => Some(s.clone()),
+                        _ => None,
+                    };
+                    if let Some(sg) = &seg {
+                        rs.diag.emit(dir, sg);
+                    }
+                    let s = &mut rs.stats;
                     *s.seen.entry(k.to_string()).or_default() += 1;
                     let a = rng.chance(dd.p_drop);
                     let b = rng.chance(dd.p_delay);
@@ -216,8 +262,16 @@ pub fn run(d: &E2e) -> E2eOut {
                     } else if b && ms > 0 {
                         *s.delayed.entry(k.to_string()).or_default() += 1;
                         s.max_delay_ms = s.max_delay_ms.max(ms);
+                        if let Some(sg) = seg {
+                            rs.seq += 1;
+                            let q = rs.seq;
+                            rs.pending.push((now_ms + ms as u64, q, dir, sg));
+                        }
                         Verdict::Deliver(Duration::from_millis(ms as u64))
                     } else {
+                        if let Some(sg) = &seg {
+                            rs.diag.deliver(dir, sg);
+                        }
                         Verdict::Pass
                     }
                 })
@@ -232,7 +286,11 @@ pub fn run(d: &E2e) -> E2eOut {
             });
     }
     let hist = sh.hist.borrow().clone();
-    let stats = stats.borrow().clone();
+    let (stats, diag) = {
+        let mut rs = state.borrow_mut();
+        rs.flush(u64::MAX);
+        (rs.stats.clone(), rs.diag.clone())
+    };
     E2eOut {
         hist,
         stats,
@@ -240,97 +298,32 @@ pub fn run(d: &E2e) -> E2eOut {
         server_done: sdone.get(),
         client_done: cdone.get(),
         horizon_ms,
+        diag,
     }
 }
 
-/// Same oracle as the wire engine's, on the fixture run's history.
+/// Same oracle as the wire engine's, on the fixture run's history: the run is
+/// presented as an `Outcome` whose fault counts come from the counting rule.
 pub fn judge(d: &E2e, o: &E2eOut) -> Vec<crate::oracle::Complaint> {
-    use crate::oracle::Complaint;
-    let mut out = vec![];
-    for (class, detail) in &o.hist.complaints {
-        if ["corrupt", "phantom", "bytes-after-eof", "bytes-after-error", "write-count"].contains(&class.as_str()) {
-            out.push(Complaint {
-                class: class.clone(),
-                kind: String::new(),
-                detail: detail.clone(),
-            });
-        }
+    let unfinished = o.timed_out || !o.server_done || !o.client_done;
+    let po = Outcome {
+        stop: if unfinished { Stop::Horizon } else { Stop::Complete },
+        rounds: o.horizon_ms,
+        hist: o.hist.clone(),
+        pkts: vec![],
+        mon: Mon::default(),
+        pending: if unfinished { vec!["fixture".to_string()] } else { vec![] },
+        drops: o.stats.drops,
+        max_hold: o.stats.max_delay_ms,
+        last_fault_round: 0,
+        overtakes: 0,
+        retx_seen: 0,
+        final_counts: vec![],
+        diag: o.diag.clone(),
+    };
+    let mut v = crate::oracle::judge(&d.as_scn(), &po).complaints;
+    for c in v.iter_mut() {
+        c.detail = format!("{} [fixture rule dropped {:?}, delayed {:?}]", c.detail, o.stats.dropped, o.stats.delayed);
     }
-    for dir in [Dir::C2S, Dir::S2C] {
-        let h = o.hist.d(dir);
-        if h.eof && h.read_off < h.written {
-            out.push(Complaint {
-                class: "eof-early".into(),
-                kind: dir.as_str().into(),
-                detail: format!("{}: EOF after {} of {} accepted bytes", dir.as_str(), h.read_off, h.written),
-            });
-        }
-    }
-    let env = o.stats.drops < d.cfg.retx_max && o.stats.max_delay_ms < d.cfg.retx_threshold;
-    if env {
-        let mut errors = vec![];
-        if let Some(Err(e)) = &o.hist.connect {
-            errors.push(format!("connect:{e}"));
-        }
-        if let Some(Err(e)) = &o.hist.accept {
-            errors.push(format!("accept:{e}"));
-        }
-        for dir in [Dir::C2S, Dir::S2C] {
-            let h = o.hist.d(dir);
-            if let Some(e) = &h.write_err {
-                errors.push(format!("{}-write:{e}", dir.as_str()));
-            }
-            if let Some(Err(e)) = &h.shutdown {
-                errors.push(format!("{}-shutdown:{e}", dir.as_str()));
-            }
-            if let Some(e) = &h.read_err {
-                errors.push(format!("{}-read:{e}", dir.as_str()));
-            }
-        }
-        if !errors.is_empty() {
-            out.push(Complaint {
-                class: "abort".into(),
-                kind: errors[0].clone(),
-                detail: format!(
-                    "{} drop(s) {:?}, delays <= {} ms (inside the envelope) but operations failed: {}",
-                    o.stats.drops,
-                    o.stats.dropped,
-                    o.stats.max_delay_ms,
-                    errors.join(", ")
-                ),
-            });
-        } else if o.timed_out || !o.server_done || !o.client_done {
-            let st: Vec<String> = [Dir::C2S, Dir::S2C]
-                .iter()
-                .map(|&dir| {
-                    let h = o.hist.d(dir);
-                    format!("{} written {}/{} read {} eof={}", dir.as_str(), h.written, d.as_scn().dir(dir).total, h.read_off, h.eof)
-                })
-                .collect();
-            out.push(Complaint {
-                class: "stall".into(),
-                kind: String::new(),
-                detail: format!(
-                    "{} drop(s) {:?}, delays <= {} ms (inside the envelope): not finished after {} virtual ms [{}]",
-                    o.stats.drops,
-                    o.stats.dropped,
-                    o.stats.max_delay_ms,
-                    o.horizon_ms,
-                    st.join("; ")
-                ),
-            });
-        } else {
-            for dir in [Dir::C2S, Dir::S2C] {
-                let h = o.hist.d(dir);
-                if !(h.eof && h.read_off == d.as_scn().dir(dir).total as u64) {
-                    out.push(Complaint {
-                        class: "incomplete".into(),
-                        kind: dir.as_str().into(),
-                        detail: format!("{}: finished without error but read {} of {} eof={}", dir.as_str(), h.read_off, d.as_scn().dir(dir).total, h.eof),
-                    });
-                }
-            }
-        }
-    }
-    out
+    v
 }
